@@ -143,7 +143,7 @@ func (ch c02) Run(c *core.Ctx) {
 	defer envAuth.Stop()
 	nprog, nhost, nwr := 330, 600, 4000
 	if c.Tier == "thorough" {
-		nprog, nhost, nwr = 10000, 20000, 200000
+		nprog, nhost, nwr = 40000, 60000, 400000
 	}
 	strict := func(conn *tr.Conn, what string, cs any) bool {
 		out := conn.Out()
